@@ -25,6 +25,9 @@ type Case struct {
 	Msg     hx.Bytes `json:"msg"`     // framed message whose root is an aircraftlib.Z
 	History int      `json:"history"` // number of prior Encode calls on the same Encoder
 	HistMsg hx.Bytes `json:"history_msg"`
+	// FailedBefore: the last prior call on the Encoder is an Encode that fails half-way (the value is read under a
+	// traversal budget of this many bytes); 0 = none
+	FailedBefore uint64 `json:"failed_before,omitempty"`
 }
 
 func zMessage(t *rapid.T, depth int) []byte {
@@ -183,6 +186,19 @@ func run(c Case) (pbt.Result, error) {
 			}
 		}
 	}
+	if c.FailedBefore > 0 {
+		// an Encode that gives up after part of its output (the reader's budget runs out): an error for that call, and
+		// nothing of it may surface in the next one
+		if m, err := capnp.Unmarshal(append([]byte(nil), histMsg...)); err == nil {
+			m.TraverseLimit = c.FailedBefore
+			if hz, err := air.ReadRootZ(m); err == nil {
+				buf.Reset()
+				if err := enc.Encode(air.Z_TypeID, hz.Struct); err != nil {
+					res.Class("failed-encode-before")
+				}
+			}
+		}
+	}
 	buf.Reset()
 	if err := enc.Encode(air.Z_TypeID, z.Struct); err != nil {
 		return res, pbt.Fail("history-dependent/error", "Encode after %d prior calls failed: %v", c.History, err)
@@ -261,13 +277,16 @@ func listStrings(z air.Z, v *mirror.Z) error {
 
 var _ = pbt.Register(pbt.Spec[Case]{
 	Property: "C20", Name: "z-text",
-	Rule:     "aircraftlib.Z values covering every union member (all integer widths with extremes, floats incl. NaN/+-Inf/-0/denormals, enums in and out of range, nested Z/lists/lists of lists, groups, PlaneBase/Aircraft/Regression) with Text/Data drawn from all byte values (emphasis on quotes, backslash, NUL, control bytes, 0x7f-0xff), built into a message; prior Encode calls on the same Encoder in {0,1,10,1000, occasionally 15000 (one fixed regression case per run; a shared 64 MiB budget is exhausted after ~11k)}. Oracle: a strict parser of the text grammar consumes the whole output (string literals contain only printable ASCII and known escapes); every shown value is recovered exactly and equals the value returned by the generated accessors (floats bit-exact, NaN=NaN, spelling of inf/nan not constrained); String() = Marshal; rendering twice, on a fresh and on a long-used encoder gives identical text; typed List.String() of list.go parses to the same elements. Non-trivial: a Text/Data value needs escaping or history >= 1000.",
+	Rule:     "aircraftlib.Z values covering every union member (all integer widths with extremes, floats incl. NaN/+-Inf/-0/denormals, enums in and out of range, nested Z/lists/lists of lists, groups, PlaneBase/Aircraft/Regression) with Text/Data drawn from all byte values (emphasis on quotes, backslash, NUL, control bytes, 0x7f-0xff), built into a message; prior Encode calls on the same Encoder in {0,1,10,1000 - in 1 case of 4 followed by an Encode that fails half-way because its reader's traversal budget (8-160 bytes) runs out -, occasionally 15000 (one fixed regression case per run; a shared 64 MiB budget is exhausted after ~11k)}. Oracle: a strict parser of the text grammar consumes the whole output (string literals contain only printable ASCII and known escapes); every shown value is recovered exactly and equals the value returned by the generated accessors (floats bit-exact, NaN=NaN, spelling of inf/nan not constrained); String() = Marshal; rendering twice, on a fresh and on a long-used encoder gives identical text; typed List.String() of list.go parses to the same elements. Non-trivial: a Text/Data value needs escaping or history >= 1000.",
 	Quick:    4000, Thorough: 40000,
 	Gen: func(t *rapid.T) Case {
 		c := Case{Msg: zMessage(t, 2)}
 		c.History = rapid.SampledFrom(histChoices).Draw(t, "h")
 		if c.History > 0 {
 			c.HistMsg = histMsg
+		}
+		if rapid.IntRange(0, 3).Draw(t, "failed") == 0 {
+			c.FailedBefore = uint64(rapid.SampledFrom([]int{8, 16, 40, 64, 96, 160}).Draw(t, "failbudget"))
 		}
 		return c
 	},
